@@ -901,6 +901,9 @@ def run_property(pid, P, rng, tier, seed, escalate=False, only_B=False):
                 rep['samples'].append({'stage': 'B', 'macro': d['macro'], 'dsl': d['text'][:300], 'observed': ' '.join(d['observed'])[:300]})
     if P.get('macro_table') and not only_B:
         check_macro_table(rep)
+    if P.get('doc_table') and not only_B:
+        import doctab
+        doctab.check_doc_table(rep)
     if P.get('P') and not only_B:
         run_P(pid, P, rng, tier, rep, distinct)
     if P.get('history') and not only_B:
